@@ -191,6 +191,10 @@ def shrink_lp(sc, min_crit=0, keep_stab=False):
         c = copy.deepcopy(sc)
         c['opts']['flag_order'] = None
         yield c
+    if opts.get('alias_seed'):
+        c = copy.deepcopy(sc)
+        c['opts']['alias_seed'] = None
+        yield c
     want = list(range(1, len(crit) + 1))
     order = sorted(range(len(crit)), key=lambda k: crit[k]['pos'])
     if [crit[k]['pos'] for k in order] != want:
@@ -528,7 +532,8 @@ def shrink_params(p, keep=()):
     if p.get('numinst', 1) > 1:
         cands.append(dict(p, numinst=1))
         cands.append(dict(p, numinst=p['numinst'] // 2))
-    for k in ('t1', 't2', 'skew', 'lq', 'llq', 'lt', 'flag_order'):
+    for k in ('t1', 't2', 'skew', 'lq', 'llq', 'lt', 'flag_order',
+              'alias_seed'):
         if p.get(k) is not None and k not in keep:
             cands.append(dict(p, **{k: None}))
     for k in ('n1', 'n2', 'n3', 'pmax', 'pmin', 'uq', 'luq'):
